@@ -1142,6 +1142,11 @@ pub fn run_monitor(p: &Params, rep: &mut Report) {
         for _ in 0..3 {
             subqueries(rep, &mut rng, &h.store, &sd);
         }
+        if rep.samples.len() < 3 {
+            let pl = pool(&h.store, &mut rng);
+            let q = QS::new(Type::Annotation, vec![gen_cs(&mut rng, &pl, true), gen_cs(&mut rng, &pl, false)]);
+            rep.sample(json!({"store_history_ops": h.ops.len(), "example_query": q.describe(), "answer": format!("{:?}", eval(&h.store, &q)).chars().take(300).collect::<String>()}));
+        }
         for _ in 0..4 {
             handles_unit(rep, &mut rng, &h.store);
             limit_unit(rep, &mut rng);
